@@ -153,7 +153,10 @@ def h5_roundtrip(d):
 
 
 def same_L(a, b, tol=0.):
-    return all(np.array_equal(x, y) if tol == 0. else np.allclose(x, y, rtol=tol, atol=tol * max(np.abs(x).max(), 1e-300)) for x, y in zip(a, b))
+    if tol == 0.: return all(np.array_equal(x, y) for x, y in zip(a, b))
+    # one scale for the four tensors: a coefficient that vanishes identically (L1vv in the tracer limit) is roundoff of that scale
+    sc = max(max(np.abs(x).max() for x in a), max(np.abs(y).max() for y in b), 1e-300)
+    return all(np.allclose(x, y, rtol=tol, atol=tol * sc) for x, y in zip(a, b))
 
 
 def w_history(arg):
